@@ -7,12 +7,16 @@ open Ptk Ptk.Py Ptk.Proto Ptk.C01
 def swapCase (t : Text) : Text := t.map fun c =>
   if c.isLower then c.toUpper else if c.isUpper then c.toLower else c
 
-def asciiUpper (t : Text) : Text := t.map Char.toUpper
+/-- `str.upper` / `str.lower` / `str.title` on ASCII letters plus U+00DF (sharp s), whose upper /
+    title case mapping changes the length ("SS" / "Ss"); every other character is uncased here
+    (the correspondence generators use only such characters in the case-transform commands). -/
+def sharpS : Char := Char.ofNat 0xDF
+def asciiUpper (t : Text) : Text := t.flatMap fun c => if c = sharpS then ['S', 'S'] else [c.toUpper]
 def asciiLower (t : Text) : Text := t.map Char.toLower
-/-- `str.title()` restricted to ASCII letters (all other characters are uncased) -/
 def asciiTitle (t : Text) : Text :=
   (t.foldl (fun (acc : Text × Bool) c =>
-    if c.isAlpha then ((if acc.2 then c.toLower else c.toUpper) :: acc.1, true)
+    if c = sharpS then ((if acc.2 then [sharpS] else ['s', 'S']) ++ acc.1, true)
+    else if c.isAlpha then ((if acc.2 then c.toLower else c.toUpper) :: acc.1, true)
     else (c :: acc.1, false)) ([], false)).1.reverse
 
 def parseOp : List String → Option Op
